@@ -16,6 +16,7 @@ COQ_STREAMS = {
     'ampthr': (_HDR, 'bad_amp_threshes', ('float * float', 'bool'), 2000),
     'min_n': (_HDR, 'bad_min_n', ('Z', 'bool'), 2000),
     'option': (_HDR, 'bad_option', ('optname * option string', 'bool'), 2000),
+    'optval': (_HDR, 'bad_optval', ('optname * pyval', 'bool'), 2000),
     'fs': (_HDR, 'bad_fs', ('float', 'bool'), 2000),
     'guard': (_HDR, 'bad_guard', ('guard', 'bool'), 2000),
 }
@@ -28,14 +29,24 @@ RULE = ('exhaustive grid: array shapes {2-D, 3-D} x extents 1..3 x axis in {0, 1
         'point that checks it (features, cyclepoints, burst features, objects, groups, limit_df, the four plot functions); bad '
         'thresholds / centre / burst method / reversed amplitude thresholds / min_n_cycles through Bycycle.fit and '
         'BycycleGroup.fit; every enumerated option with each documented value and an unknown one (tables in Model/Validate.v); '
+        'every enumerated option (centre extremum, burst method, first_extrema, direction, progress, axis) with its documented '
+        'values and with unknown values of every type - the falsy ones \'\', False, 0, 0.0, b\'\', (), [], truthy ones, None '
+        'where it is not documented, and each documented string in another case, padded with a blank, as bytes, in a tuple, in '
+        'a list - through its leaf function and through every public entry point that forwards it (compute_features, '
+        'compute_shape_features, compute_cyclepoints, compute_burst_features, Bycycle, BycycleGroup 2-D / 3-D, '
+        'compute_features_2d / _3d with one option dictionary or a per-signal list, each axis); '
         'dimensionality and fitted-state guards. non-trivial = a list-shaped option value, a BycycleGroup.fit call, or a scalar / '
         'enumerated parameter case')
 EXHAUSTIVE = {'quick': True, 'thorough': True}
-ASSUMPTIONS = ['the place where a ValueError is raised is free (fs = 0 is rejected by neurodsp, fs < 0 by bycycle)',
+TRUST = ['inside the group functions multiprocessing.Pool is replaced, in-process and for the duration of one call, by a serial '
+         'stand-in with the same interface (context manager + imap): a rejected setting makes the library leave `with Pool` '
+         'through Pool.terminate(), which can dead-lock in CPython; validation itself is untouched']
+ASSUMPTIONS = ['the place where a ValueError is raised is free (fs = 0 is rejected by limit_df / plot_burst_detect_param '
+               'themselves, elsewhere by neurodsp or matplotlib; fs < 0 by bycycle)',
+               'a value that Python compares equal to a documented one but has another type (axis False, 0.0, True, 1.0, '
+               '(0.0, 1.0)) is neither a documented nor an unknown value: no verdict',
                'NaN thresholds and the first_extrema override of compute_shape_features are not clauses of the property: they are '
-               'compared with the model only',
-               'PENDING-DEFECT 2 (.work/wp/WP8_defect_2.md): fs = 0 is not passed to limit_df and plot_burst_detect_param (both '
-               'accept it and produce a result)']
+               'compared with the model only']
 AXES = {'0': 0, '1': 1, '01': (0, 1), 'None': None, '2': 2, 'x': 'x'}
 AXC = {'0': 'Ax0', '1': 'Ax1', '01': 'Ax01', 'None': 'AxNone', '2': 'AxOther', 'x': 'AxOther'}
 
@@ -66,9 +77,6 @@ def _num(v):
 FS_VIAS = ['compute_features', 'find_extrema', 'shape', 'cyclepoints', 'band_amp', 'burst_features_amp', 'burst_fraction',
            'bycycle_fit', 'group_fit2', 'group_fit3', 'features_2d', 'features_3d', 'limit_df', 'plot_df', 'plot_array',
            'plot_summary', 'plot_param']
-# PENDING-DEFECT 2: limit_df and plot_burst_detect_param accept fs = 0 (check_param_range(fs, 'fs', (0, inf)) is inclusive and
-# nothing downstream fails); excluded until the implementation is repaired
-FS_PENDING = {('limit_df', 0.0), ('plot_param', 0.0)}
 OBJ_SETTINGS = [
     # (setting class, keyword arguments of the object, documented-valid?)
     ('thr', {'thresholds': {'amp_fraction_threshold': math.nextafter(1.0, 2.0)}}, False),
@@ -90,6 +98,335 @@ OBJ_SETTINGS = [
     ('ampthr', {'burst_method': 'amp', 'burst_kwargs': {'amp_threshes': (-0.1, 1.0)}}, False),
     ('ampthr', {'burst_method': 'amp', 'burst_kwargs': {'amp_threshes': (1.0, 2.0)}}, True),
 ]
+
+
+# ---------------------------------------------------------------------------------------------------------------------
+# enumerated options with values of every Python type (kind 'optval')
+NAN = float('nan')
+OPT_DOC = {'centre': ['peak', 'trough'], 'burst_method': ['cycles', 'amp'], 'first_extrema': ['peak', 'trough', None],
+           'direction': ['both', 'next', 'last'], 'progress': [None, 'tqdm', 'tqdm.notebook']}
+OPT_COQ = {'centre': 'OCenter', 'burst_method': 'OBurstMethod', 'first_extrema': 'OFirstExtrema', 'direction': 'ODirection',
+           'progress': 'OProgress'}
+AXIS_DOC = {2: [0, None], 3: [0, 1, (0, 1)]}
+# entry points per option: (name, leaf?)
+OPT_VIAS = {
+    'centre': [('shape', True), ('compute_features', False), ('Bycycle', False), ('Group2', False), ('Group3', False),
+               ('2d', False), ('2d_list', False), ('2d_none', False), ('2d_none_list', False), ('3d', False), ('3d_1', False),
+               ('3d_01', False)],
+    'burst_method': [('burst_features', True), ('compute_features', True), ('Bycycle', False), ('Group2', False),
+                     ('Group3', False), ('2d', False), ('2d_list', False), ('2d_none', False), ('2d_none_list', False),
+                     ('3d', False), ('3d_1', False), ('3d_01', False)],
+    'first_extrema': [('find_extrema', True), ('cyclepoints', False), ('shape', False), ('compute_features', False)],
+    'direction': [('amp', True), ('period', True), ('edge', True)],
+    'progress': [('progress_bar', True), ('2d', False), ('2d_none', False), ('3d', False), ('3d_1', False), ('3d_01', False),
+                 ('Group2', False), ('Group2_none', False), ('Group3', False)],
+    'axis': [('2d', True), ('3d', True), ('Group2', False), ('Group3', False)],
+}
+# entry points that refuse even the documented values (an implementation choice, DESIGN section 3): model comparison only
+OPT_NO_VERDICT = {('first_extrema', 'shape'), ('first_extrema', 'compute_features')}
+# a documented value that one forwarding entry point cannot handle (compute_cyclepoints builds its table for a leading
+# peak; first_extrema='trough' ends in pandas' 'All arrays must be of the same length'): no verdict, not in the model stream
+OPT_NO_VERDICT_VALUES = {('first_extrema', 'cyclepoints', 'trough'),
+                         # with axis=None the centre of a later entry is documented to be overridden by the first entry's;
+                         # an explicit None there is indistinguishable from leaving the key out (which is valid)
+                         ('centre', '2d_none_list', None)}
+
+
+def _no_verdict_value(opt, via, v):
+    return (v is None or isinstance(v, str)) and (opt, via, v) in OPT_NO_VERDICT_VALUES
+# (option, entry point) pairs for which unknown values are not generated: none at present (the two classes excluded here
+# as PENDING-DEFECT 1 / 2 — burst method / centre of later entries and `progress` not validated with axis=None,
+# .work/wp/WP10b_defect_{1,2}.md — are repaired in /repo dff010f, 359f26a and generated again)
+OPT_PENDING = set()
+
+
+def _encv(v):
+    """JSON-safe encoding of an arbitrary option value."""
+    if v is None:
+        return ['none']
+    if isinstance(v, bool):
+        return ['bool', v]
+    if isinstance(v, int):
+        return ['int', v]
+    if isinstance(v, float):
+        return ['float', repr(v)]
+    if isinstance(v, str):
+        return ['str', v]
+    if isinstance(v, bytes):
+        return ['bytes', v.decode('latin1')]
+    if isinstance(v, tuple):
+        return ['tuple', [_encv(x) for x in v]]
+    if isinstance(v, list):
+        return ['list', [_encv(x) for x in v]]
+    raise TypeError(v)
+
+
+def _decv(e):
+    t = e[0]
+    if t == 'none':
+        return None
+    if t in ('bool', 'int', 'str'):
+        return e[1]
+    if t == 'float':
+        return float(e[1])
+    if t == 'bytes':
+        return e[1].encode('latin1')
+    if t == 'tuple':
+        return tuple(_decv(x) for x in e[1])
+    return [_decv(x) for x in e[1]]
+
+
+def _pyeq(v, d):
+    """v == d as Python's `==` / `in` see it (False == 0, 1.0 == 1, [0, 1] != (0, 1)); None only by identity."""
+    if d is None or v is None:
+        return v is None and d is None
+    try:
+        return bool(v == d)
+    except Exception:
+        return False
+
+
+def _exact(v, d):
+    """v is the documented value d itself: equal and of the same type, items included."""
+    if type(v) is not type(d):
+        return False
+    if isinstance(d, tuple):
+        return len(v) == len(d) and all(_exact(a, b) for a, b in zip(v, d))
+    return _pyeq(v, d)
+
+
+def _str_variants(d):
+    out = [d.capitalize(), d.upper(), ' ' + d, d + ' ', d + '\n', d.encode('ascii'), (d,), [d], d[:-1], d + 's']
+    return [x for x in out if x != d]
+
+
+def _unknown_values(opt, ndim=None):
+    """(always, variants): unknown values of every type; `variants` are the near misses of each documented string."""
+    if opt == 'axis':
+        doc = AXIS_DOC[ndim]
+        cand = ['', b'', (), [], 'x', '0', 'None', 'axis', 2, -1, 3, (1, 0), (0,), (1,), [0, 1], [0], (0, 1, 2), (0, 0), 0.5,
+                NAN, (0, '1'), ('0', '1'), None, 1, (0, 1), False, 0.0, True, 1.0, (0.0, 1.0), (False, True), -0.0]
+        return [v for v in cand if not any(_exact(v, d) for d in doc)], []
+    doc = OPT_DOC[opt]
+    always = ['', False, 0, 0.0, b'', (), [], True, 1, 'x', 'None', 'none', NAN, -1, (None,), [None], 'peaks']
+    if None not in doc:
+        always.append(None)
+    for other in OPT_DOC.values():              # the documented strings of the OTHER options
+        always.extend(x for x in other if isinstance(x, str) and x not in doc and x not in always)
+    variants = []
+    for d in doc:
+        if isinstance(d, str):
+            variants.extend(x for x in _str_variants(d) if x not in doc)
+    return always, variants
+
+
+def _optval_cases(rng, tier):
+    out = []
+    for opt, vias in OPT_VIAS.items():
+        for via, leaf in vias:
+            ndim = (3 if '3' in via else 2) if opt == 'axis' else None
+            doc = AXIS_DOC[ndim] if opt == 'axis' else OPT_DOC[opt]
+            vals = list(doc)
+            if (opt, via) not in OPT_PENDING:
+                always, variants = _unknown_values(opt, ndim)
+                vals += always
+                if leaf or tier == 'thorough':
+                    vals += variants
+                else:
+                    vals += rng.sample(variants, min(6, len(variants)))
+            for v in vals:
+                out.append({'kind': 'optval', 'opt': opt, 'via': via, 'v': _encv(v)})
+    return out
+
+
+class _SerialPool:
+    """Stand-in for multiprocessing.Pool inside bycycle.group.features while settings are validated: same interface as
+    used there (context manager + imap), the work done in this process.  Reason: `with Pool(...)` leaves through
+    Pool.terminate() when a worker's ValueError propagates, and CPython's terminate() can dead-lock when the worker is
+    killed while it still holds the result-queue lock (under load: about one in a few hundred rejected calls, each stall
+    costing the watchdog's 150 s); this property sends hundreds of rejected settings through the group functions per
+    run.  What is validated, and where, is unchanged; real pools are exercised by C11 / C12."""
+
+    def __init__(self, *args, **kwargs):
+        pass
+
+    def __enter__(self):
+        return self
+
+    def __exit__(self, *exc):
+        return False
+
+    def imap(self, func, iterable, chunksize=1):
+        return map(func, iterable)
+
+
+class _serial_pools:
+    """In-process, restored afterwards; if the module no longer has a name `Pool` nothing is replaced."""
+
+    def __enter__(self):
+        self.mod, self.old = None, None
+        try:
+            import bycycle.group.features as gf
+            if hasattr(gf, 'Pool'):
+                self.mod, self.old = gf, gf.Pool
+                gf.Pool = _SerialPool
+        except ImportError:
+            pass
+        return self
+
+    def __exit__(self, *exc):
+        if self.mod is not None:
+            self.mod.Pool = self.old
+        return False
+
+
+def _run_optval(opt, via, v):
+    """One call of a public entry point with option `opt` = v."""
+    from bycycle.features import compute_features, compute_shape_features, compute_cyclepoints, compute_burst_features
+    from bycycle.group import compute_features_2d, compute_features_3d
+    sig, fr = _sig(), (3, 8)
+
+    def sigs2():
+        return np.array([_sig(240, 0), _sig(240, 1)])
+
+    def sigs3():
+        return np.array([[_sig(240, 0), _sig(240, 1)]])
+
+    def grp(ndim, kw, **fit):
+        from bycycle import BycycleGroup
+        kw.setdefault('thresholds', {})
+        return BycycleGroup(**kw).fit(sigs2() if ndim == 2 else sigs3(), 100, fr, n_jobs=1, **fit)
+
+    def via_group_functions(key, good):
+        """The option inside compute_features_kwargs of the group functions."""
+        if via == '2d':
+            return compute_features_2d(sigs2(), 100, fr, compute_features_kwargs={key: v}, n_jobs=1)
+        if via == '2d_list':
+            return compute_features_2d(sigs2(), 100, fr, compute_features_kwargs=[{key: good}, {key: v}], n_jobs=1)
+        if via == '2d_none':
+            return compute_features_2d(sigs2(), 100, fr, compute_features_kwargs={key: v}, axis=None, n_jobs=1)
+        if via == '2d_none_list':
+            # one analysis of the flattened array with the first entry's options: a documented value goes into both entries
+            first = v if any(_exact(v, d) for d in OPT_DOC[opt]) else good
+            return compute_features_2d(sigs2(), 100, fr, compute_features_kwargs=[{key: first}, {key: v}], axis=None, n_jobs=1)
+        if via == '3d':
+            return compute_features_3d(sigs3(), 100, fr, compute_features_kwargs={key: v}, n_jobs=1)
+        if via == '3d_1':
+            return compute_features_3d(sigs3(), 100, fr, compute_features_kwargs={key: v}, axis=1, n_jobs=1)
+        if via == '3d_01':
+            return compute_features_3d(sigs3(), 100, fr, compute_features_kwargs=[[{key: good}, {key: v}]], axis=(0, 1), n_jobs=1)
+        raise KeyError(via)
+
+    if opt in ('centre', 'burst_method'):
+        key = 'center_extrema' if opt == 'centre' else 'burst_method'
+        if via == 'shape':
+            return compute_shape_features(sig, 100, fr, center_extrema=v)
+        if via == 'burst_features':
+            dfs = compute_shape_features(sig, 100, fr)
+            return compute_burst_features(dfs, sig, burst_method=v, burst_kwargs={'fs': 100, 'f_range': fr})
+        if via == 'compute_features':
+            return compute_features(sig, 100, fr, threshold_kwargs={}, **{key: v})
+        if via == 'Bycycle':
+            from bycycle import Bycycle
+            return Bycycle(thresholds={}, **{key: v}).fit(sig, 100, fr)
+        if via in ('Group2', 'Group3'):
+            return grp(int(via[-1]), {key: v})
+        return via_group_functions(key, OPT_DOC[opt][0])
+    if opt == 'first_extrema':
+        if via == 'find_extrema':
+            from bycycle.cyclepoints import find_extrema
+            return find_extrema(sig, 100, fr, first_extrema=v)
+        if via == 'cyclepoints':
+            return compute_cyclepoints(sig, 100, fr, first_extrema=v)
+        if via == 'shape':
+            return compute_shape_features(sig, 100, fr, find_extrema_kwargs={'first_extrema': v})
+        return compute_features(sig, 100, fr, find_extrema_kwargs={'first_extrema': v}, threshold_kwargs={})
+    if opt == 'direction':
+        from bycycle.features.burst import compute_amp_consistency, compute_period_consistency
+        from bycycle.burst.utils import recompute_edge
+        df = compute_features(sig, 100, fr, threshold_kwargs={})
+        if via == 'amp':
+            return compute_amp_consistency(df, direction=v)
+        if via == 'period':
+            return compute_period_consistency(df, direction=v)
+        return recompute_edge(df.copy(), 2, v)
+    if opt == 'progress':
+        if via == 'progress_bar':
+            from bycycle.group.utils import progress_bar
+            return list(progress_bar(iter([1, 2]), v, 2))
+        if via == '2d':
+            return compute_features_2d(sigs2(), 100, fr, n_jobs=1, progress=v)
+        if via == '2d_none':
+            return compute_features_2d(sigs2(), 100, fr, n_jobs=1, progress=v, axis=None)
+        if via == '3d':
+            return compute_features_3d(sigs3(), 100, fr, n_jobs=1, progress=v)
+        if via == '3d_1':
+            return compute_features_3d(sigs3(), 100, fr, n_jobs=1, progress=v, axis=1)
+        if via == '3d_01':
+            return compute_features_3d(sigs3(), 100, fr, n_jobs=1, progress=v, axis=(0, 1))
+        if via == 'Group2':
+            return grp(2, {}, progress=v)
+        if via == 'Group2_none':
+            return grp(2, {}, progress=v, axis=None)
+        return grp(3, {}, progress=v)
+    if opt == 'axis':
+        if via == '2d':
+            return compute_features_2d(sigs2(), 100, fr, n_jobs=1, axis=v)
+        if via == '3d':
+            return compute_features_3d(sigs3(), 100, fr, n_jobs=1, axis=v)
+        return grp(int(via[-1]), {}, axis=v)
+    raise KeyError(opt)
+
+
+def _optval_expected(c):
+    opt, via, v = c['opt'], c['via'], _decv(c['v'])
+    doc = AXIS_DOC[3 if '3' in via else 2] if opt == 'axis' else OPT_DOC[opt]
+    if (opt, via) in OPT_NO_VERDICT or _no_verdict_value(opt, via, v):
+        return None
+    if any(_exact(v, d) for d in doc):
+        return True
+    if any(_pyeq(v, d) for d in doc):
+        return None                          # e.g. axis=False / 0.0: equal to the documented 0 for Python, another type
+    return False
+
+
+def _axis_class(v):
+    for d, name in ((0, 'Ax0'), (1, 'Ax1'), ((0, 1), 'Ax01')):
+        if _pyeq(v, d):
+            return name
+    return 'AxNone' if v is None else 'AxOther'
+
+
+def _coq_str(x):
+    return '"%s"%%string' % x.replace('"', '""')
+
+
+def _pyval(v):
+    """Model/Validate.v pyval literal (None when the value has no literal: non-ASCII text, nested containers)."""
+    if v is None:
+        return 'PNone'
+    if isinstance(v, bool):
+        return '(PBool %s)' % coqio.B(v)
+    if isinstance(v, int):
+        return '(PInt %s%%Z)' % coqio.Z(v)
+    if isinstance(v, float):
+        return '(PFloat %s)' % coqio.fl(v)
+    if isinstance(v, (str, bytes)):
+        t = v if isinstance(v, str) else v.decode('latin1')
+        if not all(32 <= ord(ch) < 127 for ch in t):
+            return None
+        return '(%s %s)' % ('PStr' if isinstance(v, str) else 'PBytes', _coq_str(t))
+    if isinstance(v, (tuple, list)):
+        items = []
+        for x in v:
+            if x is None:
+                items.append('None')
+            elif isinstance(x, str) and all(32 <= ord(ch) < 127 for ch in x):
+                items.append('(Some %s)' % _coq_str(x))
+            else:
+                return None
+        return '(%s %s)' % ('PTuple' if isinstance(v, tuple) else 'PList', coqio.lst(items))
+    return None
 
 
 def _valid_entry(g):
@@ -127,9 +464,8 @@ def cases(rng, tier):
     for lo, hi in [(1, 2), (2, 1), (-0.1, 1), (1, 1), (0.5, 1.5), (0, 2), (1.0 + eps, 1.0), (-eps, 0.5), (3, 2.999), (-INF, 1), (INF, 1)]:
         out.append({'kind': 'ampthr', 'lo': _enc(float(lo)), 'hi': _enc(float(hi))})
     for via in FS_VIAS:
-        for fs in [-1.0, -eps, 0.0, -INF, 100.0]:
-            if (via, fs) not in FS_PENDING:
-                out.append({'kind': 'fs', 'fs': _enc(fs), 'via': via})
+        for fs in [-1.0, -eps, 0.0, -0.0, -INF, float('nan'), 100.0]:
+            out.append({'kind': 'fs', 'fs': _enc(fs), 'via': via})
     for cls in ('Bycycle', 'Group2', 'Group3'):
         for i in range(len(OBJ_SETTINGS)):
             out.append({'kind': 'obj', 'cls': cls, 'setting': i})
@@ -142,6 +478,7 @@ def cases(rng, tier):
                       ('burst_features_method', ['cycles', 'amp', 'x']), ('first_extrema_override', ['trough'])]:
         for v in vals:
             out.append({'kind': 'option', 'opt': opt, 'v': _enc(v)})
+    out.extend(_optval_cases(rng, tier))
     return out
 
 
@@ -252,6 +589,11 @@ def _run_fs(via, fs):
 
 
 def run_impl(c):
+    with _serial_pools():
+        return _run_impl(c)
+
+
+def _run_impl(c):
     import warnings
     warnings.simplefilter('ignore')
     k = c['kind']
@@ -305,6 +647,9 @@ def run_impl(c):
                                                  burst_kwargs={'amp_threshes': (_num(c['lo']), _num(c['hi']))}))
     if k == 'fs':
         return _run_fs(c['via'], _num(c['fs']))
+    if k == 'optval':
+        v = _decv(c['v'])
+        return _attempt(lambda: _run_optval(c['opt'], c['via'], v))
     if k == 'obj':
         import copy
         kw = copy.deepcopy(OBJ_SETTINGS[c['setting']][1])
@@ -415,9 +760,12 @@ def _expected(c):
     if k == 'ampthr':
         return 0 <= _num(c['lo']) <= _num(c['hi'])
     if k == 'fs':
-        return _num(c['fs']) > 0
+        fs = _num(c['fs'])
+        return None if math.isnan(fs) else fs > 0          # NaN is neither positive nor non-positive: model comparison only
     if k == 'obj':
         return OBJ_SETTINGS[c['setting']][2]
+    if k == 'optval':
+        return _optval_expected(c)
     if k == 'option':
         o, v = c['opt'], _num(c['v'])
         if o == 'first_extrema_override':
@@ -456,6 +804,8 @@ def kind_of(c, o):
         k += '/' + c['via']
     elif k == 'obj':
         k += '/' + c['cls'] + '/' + OBJ_SETTINGS[c['setting']][0]
+    elif k == 'optval':
+        k += '/' + c['opt'] + '/' + c['via'] + '/' + c['v'][0]
     return k + '/' + o.get('r', '?')
 
 
@@ -485,6 +835,8 @@ def stream_of(c):
     k = c['kind']
     if k == 'obj':
         return _obj_model(c)[0]
+    if k == 'optval':
+        return 'entry' if c['opt'] == 'axis' else 'optval'
     if k == 'option':
         o = c['opt']
         return 'option' if o in OPTION_TABLES else ('guard' if o in GUARDS else 'range')
@@ -509,9 +861,23 @@ def coq_case(c, o):
             return None                      # the model's count is an integer
         return '%s%%Z' % coqio.Z(n), acc
     if k == 'fs':
+        if math.isnan(_num(c['fs'])):
+            return None                      # no clause of the property; entry points differ (plot_burst_detect_param draws)
         return coqio.fl(_num(c['fs'])), acc
     if k == 'obj':
         return _obj_model(c)[1], acc
+    if k == 'optval':
+        opt, via, v = c['opt'], c['via'], _decv(c['v'])
+        if opt == 'axis':
+            ds = '(D3 1%nat 2%nat)' if '3' in via else '(D2 2%nat)'
+            return '(%s, %s, %s)' % (ds, 'KDict' if via.startswith('Group') else 'KNone', _axis_class(v)), acc
+        if (opt, via) in OPT_PENDING or _no_verdict_value(opt, via, v):
+            return None                      # PENDING: documented values only, the entry point does not look at the value
+        pv = _pyval(v)
+        if pv is None:
+            return None
+        name = 'OShapeFirstExtrema' if (opt, via) in OPT_NO_VERDICT else OPT_COQ[opt]
+        return '(%s, %s)' % (name, pv), acc
     if k == 'option':
         o, v = c['opt'], _num(c['v'])
         if o in OPTION_TABLES:
